@@ -265,6 +265,14 @@ def main(args):
                     u = {'cfg': list(cfg), 'n': n, 'kind': k, 'module': modname, 'L': n, 'window': True, 'prio': 1, 'chunk': (c0, 4)}
                     u.update(dict(max_paths=20, timeout=60, query_timeout_ms=10000) if tier == 'quick' else dict(max_paths=50, timeout=600, query_timeout_ms=60000))
                     units.append(u)
+    if getattr(args, 'units_only', False):
+        return units
+    if tier != 'quick':
+        # thorough = the quick tier's units first (larger caps), then everything else while the budget lasts
+        import copy
+        qa = copy.copy(args)
+        qa.tier, qa.units_only = 'quick', True
+        units = common.plan_thorough(units, main(qa))
     rep = common.Report('C06', tier)
     rep.assumptions = ASSUMPTIONS
     rep.bounds = {'payload_lengths': lengths, 'alphabets': sorted(set(c[0] + ':' + c[1] for c in configs(tier))),
